@@ -61,7 +61,9 @@ Inductive nm_err :=
 | MEBacktrack     (* getPhi == nil: "line search failed", the back-tracking loop
                      shrank the step until x1 - t1 == x1;                       returns x1  *)
 | MELineSearch.   (* getPhi != nil: lineSearch.Run returned an error (an error of phi,
-                     or "line search failed": a trial step length 0);          returns x1  *)
+                     or "line search failed": a trial step length 0), or the step it
+                     chose rounds away, x1 - alpha t1 == x1 (newton_min's own
+                     "line search failed" of this branch);                     returns x1  *)
 
 Inductive nm_out :=
 | NmConv (x : vec) | NmHook (x : vec) | NmCap (x : vec)
@@ -200,8 +202,11 @@ Definition nm_advance (fuel : nat) (x1 t1 : vec) (tr : nm_trace) : madv_res :=
     | MLSFuel => MAdvStop NmFuel tr
     | MLS true _ _ tr1 => MAdvStop (NmErr MELineSearch x1) tr1
     | MLS false alpha t1' tr1 =>
-        (* t1.VmulS(t1, alpha); x2.VsubV(x1, t1) *)
-        nm_eval_next (vsub NM x1 (vmuls NM t1' alpha)) tr1
+        (* t1.VmulS(t1, alpha); x2.VsubV(x1, t1)
+           if Vequals(x1, x2) { return x1, fmt.Errorf("line search failed") }   (stagnation test of this branch) *)
+        let x2 := vsub NM x1 (vmuls NM t1' alpha) in
+        if vequal NM x1 x2 then MAdvStop (NmErr MELineSearch x1) tr1
+        else nm_eval_next x2 tr1
     end
   else
     match nm_backtrack fuel x1 t1 tr with
